@@ -38,12 +38,27 @@ MARGIN = 0.15
 @st.composite
 def _case(draw):
     unit = draw(st.integers(0, 3)) == 0
-    spec = draw(lm.spec_strategy(max_n=3, meas=(0, 2), allow_const=not unit))
+    two = unit and draw(st.integers(0, 2)) == 0          # two random walks, possibly with a variable loading on both
+    spec = draw(lm.spec_strategy(max_n=4 if two else 3, meas=(0, 2), allow_const=not unit))
     n = spec["n"]
     rw = None
+    rws = []
     if unit:
-        rw = draw(st.integers(0, n - 1))
-        spec["eqs"][rw] = {"terms": [[rw, -1, 1.0]], "const": 0.0, "shock": 1.0}
+        rws = draw(st.lists(st.integers(0, n - 1), min_size=2 if (two and n >= 2) else 1, max_size=2 if (two and n >= 2) else 1, unique=True))
+        rw = rws[0]
+        for r in rws:
+            spec["eqs"][r] = {"terms": [[r, -1, 1.0]], "const": 0.0, "shock": 1.0}
+        others = [i for i in range(n) if i not in rws]
+        if len(rws) == 2 and draw(st.integers(0, 3)) > 0:
+            # a spread and a sum of the two random walks: loadings on the two unit roots that cancel in sum for one of
+            # them, whatever the signs of the basis the solver picks (both are non-stationary)
+            c = draw(st.sampled_from([1.0, 0.5, 2.0]))
+            for k, sign in zip(others, draw(st.permutations([-1.0, 1.0]))):
+                spec["eqs"][k] = {"terms": [[rws[0], 0, c], [rws[1], 0, sign * c]] + ([[k, -1, 0.5]] if draw(st.booleans()) else []),
+                                  "const": 0.0, "shock": 1.0}
+            for e, sign in zip(spec["meas"], draw(st.permutations([1.0, -1.0]))):
+                if draw(st.booleans()):
+                    e["terms"] = [[rws[0], 0, c], [rws[1], 0, sign * c]]
         for e in spec["eqs"]:
             for t in e["terms"]:
                 if len(t) > 3:
@@ -55,7 +70,7 @@ def _case(draw):
         for p in spec["params"]:
             p["value"] = [p["value"], round(p["value"] * draw(st.sampled_from([0.5, 0.8, -1.0])), 6)]
     std = st.sampled_from([0.0, 1.0, 0.5, 2.0, 1.3, 0.1, 3.0])
-    return {"spec": spec, "rw": rw, "nv": nv,
+    return {"spec": spec, "rw": rw, "rws": rws, "nv": nv,
             "std_u": [draw(std) for _ in range(n)], "std_w": [draw(std) for _ in spec["meas"]],
             "std_u2": [draw(std) for _ in range(n)], "std_w2": [draw(std) for _ in spec["meas"]],
             "order": draw(st.integers(0, 4)), "scale": draw(st.sampled_from([2.0, 0.5, 3.0, 1.7]))}
@@ -63,7 +78,7 @@ def _case(draw):
 
 def _classify(case):
     spec = case["spec"]
-    labels = [f"order_{case['order']}", "unit_root" if case["rw"] is not None else "stationary",
+    labels = [f"order_{case['order']}", ("two_unit_roots" if len(_rws(case)) == 2 else "unit_root") if case["rw"] is not None else "stationary",
               "log_rendering" if spec["log"] else "additive_rendering", f"variants_{case['nv']}"]
     if spec["meas"]:
         labels.append("measurement_block")
@@ -72,12 +87,16 @@ def _classify(case):
     return True, labels
 
 
-def _classify_model(spec, rw, variant):
+def _rws(case):
+    return case.get("rws") or ([case["rw"]] if case["rw"] is not None else [])
+
+
+def _classify_model(spec, rw, variant, n_unit=None):
     ev = lm.eigenvalues(spec, variant)
     mags = sorted(abs(x) for x in ev)
     units = [m for m in mags if abs(m - 1) < 1e-8]
     rest = [m for m in mags if abs(m - 1) >= 1e-8]
-    if len(units) != (1 if rw is not None else 0):
+    if len(units) != ((n_unit or 1) if rw is not None else 0):
         return False
     if any(1 - MARGIN < m < 1 + MARGIN for m in rest):
         return False
@@ -145,10 +164,10 @@ def _reference(spec, case, m1, order):
             a = np.asarray(out[nm].get_data(start >> (start + H - 1)))[:, 0]
             Phi[si, :, vi] = np.log(a) if spec["log"] else a
     nonstationary = np.zeros(nall, dtype=bool)
-    if case["rw"] is not None:
-        rw_shock = lm.shock_names(spec)[case["rw"]]
+    for r in _rws(case):
+        rw_shock = lm.shock_names(spec)[r]
         si = [s for s, _ in shocks].index(rw_shock)
-        nonstationary = np.abs(Phi[si, H - 1, :]) > 1e-6
+        nonstationary = nonstationary | (np.abs(Phi[si, H - 1, :]) > 1e-6)
     covs = []
     for j in range(order + 1):
         C = np.zeros((nall, nall))
@@ -187,7 +206,7 @@ def _check(case):
     nv = case["nv"]
     order = case["order"]
     for v in range(nv):
-        if not _classify_model(spec, case["rw"], v):
+        if not _classify_model(spec, case["rw"], v, len(_rws(case))):
             return {"labels": ["model_not_in_domain"], "nontrivial": False}
         if case["rw"] is None and lm.steady(spec, v)[0] is None:
             return {"labels": ["singular_or_extreme_steady"], "nontrivial": False}
